@@ -89,6 +89,13 @@ def build(p, code, lab, sizes):
     for a in passed:            # hostile caller: the arrays handed to the constructor are overwritten after fitting
         a[...] = -777.0
     fits = [e for e in rpy2.LOG if e[0] == "fit"]
+    # other networks are fitted afterwards in the same process (same graph on other data; another graph): instances must not share state
+    decoy_data = [d + 50000.0 for d in data]
+    semi.DRFNet(A, decoy_data)
+    if p >= 2:
+        B = np.zeros((p, p), dtype=int)
+        B[p - 1, 0] = 1
+        semi.DRFNet(B, [d[::-1].copy() + 90000.0 for d in data])
     return A, ch, data, net, fits
 
 
